@@ -6,6 +6,7 @@ import (
 	"fmt"
 	"strings"
 	"sync"
+	"sync/atomic"
 	"testing"
 
 	"github.com/aperturerobotics/bifrost/peer"
@@ -28,7 +29,7 @@ func (i in) sepKey() string { return fmt.Sprintf("k%d|%q|%x", i.key, i.ctx, i.sa
 func TestCheck(t *testing.T) {
 	r := vf.Start(t, "C13", vf.Exploration)
 	defer r.Finish()
-	r.SetRule("inputs = (key from a seeded pool) x (context from {empty, 1 char, short, long, unicode, embedded NUL, PRNG}) x (salt from {nil, empty, 1 B, 1 KiB, PRNG}) x (output length from {0,1,31,32,33,64,1000}); a case is non-trivial when DeriveKey returned without error; distinct = distinct (key,ctx,salt,len). Oracle: no panic; same inputs twice (and from 2 goroutines) => same bytes; over all 32+ byte outputs equal output prefix(32) => equal (key,ctx,salt); shorter outputs are prefixes of longer ones is NOT demanded; DeriveEd25519Key output signs and verifies")
+	r.SetRule("inputs = (key from a seeded pool) x (context from {empty, 1 char, short, long, unicode, embedded NUL, PRNG}) x (salt from {nil, empty, 1 B, 1 KiB, PRNG}) x (output length from {0,1,31,32,33,64,1000}); a case is non-trivial when DeriveKey returned without error; distinct = distinct (key,ctx,salt,len). Oracle: no panic; same inputs twice (and from 2 goroutines) => same bytes; output buffers are pre-filled with call-dependent garbage and have varying capacity; over all outputs of >=16 bytes, equal output (first 32 bytes, per length class) => equal (key,ctx,salt), including salts/contexts of 16..70000 bytes that differ only in one late byte or in length; shorter outputs are prefixes of longer ones is NOT demanded; DeriveEd25519Key output signs and verifies")
 	rng := r.Rand("c13")
 	pool := keys.Pool(rng, r.N(12, 200))
 	ctxs := []string{"", "a", "b", "ab", "example.com 2019-12-25 16:18:03 session tokens v1", strings.Repeat("x", 4096), "ключ-日本語", "a\x00b", "a\x00", "\x00"}
@@ -44,6 +45,32 @@ func TestCheck(t *testing.T) {
 			for _, s := range salts {
 				for _, l := range lens {
 					cases = append(cases, in{k, c, s, l})
+					if l == 1 {
+						cases = append(cases, in{k, c, s, 16}, in{k, c, s, 24})
+					}
+				}
+			}
+		}
+	}
+	// separation on late differences: salts and contexts that share a long
+	// prefix and differ only in one late byte, or only in length
+	for _, L := range []int{16, 31, 32, 33, 63, 64, 65, 100, 104, 105, 106, 127, 128, 129, 200, 255, 256, 257, 1000, 1024, 4096, 70000} {
+		base := make([]byte, L)
+		for i := range base {
+			base[i] = byte(rng.UintN(256))
+		}
+		vars := [][]byte{base}
+		for _, pos := range []int{0, L / 2, L - 1} {
+			v := append([]byte(nil), base...)
+			v[pos] ^= 1 << uint(rng.IntN(8))
+			vars = append(vars, v)
+		}
+		vars = append(vars, append(append([]byte(nil), base...), 0), base[:L-1])
+		for _, v := range vars {
+			for _, l := range []int{16, 32, 64} {
+				cases = append(cases, in{0, "ctx", v, l})
+				if L <= 4096 {
+					cases = append(cases, in{1, string(v), []byte("s"), l})
 				}
 			}
 		}
@@ -73,8 +100,20 @@ func TestCheck(t *testing.T) {
 		cases = append(cases, c)
 	}
 
+	// the output buffer is pre-filled with call-dependent garbage and its
+	// capacity varies (exact, or larger than the length): the derived bytes
+	// must not depend on either.
+	var fillCtr atomic.Uint32
 	derive := func(c in) (out []byte, err error, panicked bool, pd string) {
-		out = make([]byte, c.n)
+		k := fillCtr.Add(1)
+		if k%2 == 0 {
+			out = make([]byte, c.n)
+		} else {
+			out = make([]byte, c.n, c.n+int(k%97)+1)
+		}
+		for i := range out {
+			out[i] = byte(0xA5 ^ k ^ uint32(i))
+		}
 		panicked, pd = vf.Try(func() { err = peer.DeriveKey(c.ctx, c.salt, pool[c.key].Priv, out) })
 		return
 	}
@@ -112,10 +151,16 @@ func TestCheck(t *testing.T) {
 			r.Violation("DeriveKey/nondeterministic", "same inputs gave different outputs", map[string]any{"case": c.sig(), "a": vf.Hex(out), "b": vf.Hex(o2), "c": vf.Hex(o3)})
 		}
 		r.Count("derivations", 3)
-		if c.n >= 32 {
-			k := string(out[:32])
+		if c.n >= 16 {
+			// outputs of equal length must differ when (key,ctx,salt) differ; lengths
+			// are kept apart (a prefix relation across lengths is allowed, not demanded)
+			w := 32
+			if c.n < 32 {
+				w = c.n
+			}
+			k := fmt.Sprintf("%d|%s", w, out[:w])
 			if prev, ok := seen[k]; ok && prev != c.sepKey() {
-				r.Violation("DeriveKey/collision", "different (key,ctx,salt) gave the same output", map[string]any{"a": prev, "b": c.sepKey(), "out": vf.Hex(out[:32])})
+				r.Violation("DeriveKey/collision", "different (key,ctx,salt) gave the same output", map[string]any{"a": prev, "b": c.sepKey(), "len": c.n, "out": vf.Hex(out[:w])})
 			}
 			seen[k] = c.sepKey()
 		}
